@@ -366,7 +366,9 @@ def _mfl():
 
 
 def _exc(e):
-    return f'{type(e).__name__}: {str(e)[:120]}'
+    # first line only: lark lists the expected tokens in an order that changes from run to run
+    text = str(e).splitlines()[0][:120] if str(e) else ''
+    return f'{type(e).__name__}: {text}'
 
 
 # ---- contract of one string ----
@@ -886,6 +888,11 @@ def _merge_fails(results, replay_fn):
     return cases, nontrivial, fails
 
 
+def _replay_verdict(violations, case):
+    hits = sorted(d for f, c, d in violations if f == case['fid'] and c == case['clause'])
+    return (False, hits[0]) if hits else (True, 'ok')
+
+
 def bounded_mfl(tier):
     _mfl()
 
@@ -909,9 +916,10 @@ def bounded_mfl(tier):
                  f'tuples of length <=4 over 0..4')
     else:
         bound = (f'all MFL strings of <=2 feature descriptions over {len(UNITS)} descriptions and of 3 '
-                 f'over {ncore} core descriptions; all ordered pairs of spaces among the {len(single)} '
-                 f'one-description and {len(two)} two-description spaces with at least ... ; all int '
-                 f'tuples of length <=5 over 0..5').replace('with at least ... ', '')
+                 f'over {ncore} core descriptions; all ordered pairs of spaces with a two-description '
+                 f'space on at least one side, among the {len(single)} one-description and {len(two)} '
+                 f'two-description spaces, and all pairs of one-description spaces; all int tuples of '
+                 f'length <=5 over 0..5')
     return {
         'cases': cases,
         'nontrivial': nontrivial,
@@ -932,10 +940,7 @@ def bounded_mfl_replay(rp):
         v = _check_pair(tuple(case['a']), tuple(case['b']), roundtrip=case.get('roundtrip', False))
     else:
         v = _check_counts(tuple(case['counts']))
-    for fid, clause, detail in v or []:
-        if fid == case['fid'] and clause == case['clause']:
-            return (False, detail)
-    return (True, 'ok')
+    return _replay_verdict(v or [], case)
 
 
 # ======================================================================================
@@ -1259,10 +1264,24 @@ def C_RED_COMPLETE(keys):
             f'set ({_dom(keys)})')
 
 
-def _ref_combinations(keys):
+PRODUCT_FAMILY = (
+    ('ABSORPTION(FO)', 'ABSORPTION([FO,ZO])', 'ABSORPTION([FO,ZO,SEQ-ZO-FO])'),
+    ('ELIMINATION(FO)', 'ELIMINATION([FO,MM])'),
+    ('PERIPHERALS(0)', 'PERIPHERALS(0..2)', 'PERIPHERALS([1,2])'),
+    ('TRANSITS(0)', 'TRANSITS([0,1,3])', 'TRANSITS([1,3],*)'),
+    ('LAGTIME(OFF)', 'LAGTIME([OFF,ON])'),
+)
+
+
+def _ref_combination_groups(keys):
     groups = defaultdict(list)
     for k in keys:
         groups[_cat(k)].append(k)
+    return groups
+
+
+def _ref_combinations(keys):
+    groups = _ref_combination_groups(keys)
     out = []
     for choice in itertools.product(*[[None] + g for g in groups.values()]):
         c = frozenset(x for x in choice if x is not None)
@@ -1587,6 +1606,16 @@ def _enum_cases(tier):
     for space in NAMED_SPACES:
         yield {'kind': 'builders', 'space': space, 'drop_defaults': True, 'keys': None}
     yield {'kind': 'builders', 'space': NAMED_SPACES[1], 'keys': None}
+    # all_combinations / exhaustive on whole search spaces (the stepwise path sets of these are out of
+    # reach): every product of the options below, in quick those with <= 200 combinations
+    for parts in itertools.product(*PRODUCT_FAMILY):
+        space = ';'.join(parts)
+        ncomb = 1
+        for g in _ref_combination_groups(list(_space_funcs(space))).values():
+            ncomb *= 1 + len(g)
+        if quick and ncomb - 1 > 200:
+            continue
+        yield {'kind': 'builders', 'space': space, 'keys': None, 'skip_stepwise': True}
     if not quick:
         yield {'kind': 'builders', 'space': EXAMPLE_SPACE, 'drop_defaults': True, 'keys': None,
                'skip_stepwise': True}
@@ -1655,7 +1684,9 @@ def bounded_enumeration(tier):
              f'{EXAMPLE_SPACE!r} (and of 3 spaces with NODEPOT / unsorted counts, one step longer); '
              f'all_combinations, exhaustive, exhaustive_stepwise, reduced_stepwise for every '
              f'sub-dictionary with <={3 if quick else 4} features of the 18 funcs of {UNIVERSE_SPACE!r} '
-             f'and {len(NAMED_SPACES) + 1} named spaces; iivsearch builders for pheno + 1 peripheral with '
+             f'and {len(NAMED_SPACES) + 1} named spaces; all_combinations and exhaustive for the 108 spaces '
+             f'ABSORPTION x ELIMINATION x PERIPHERALS x TRANSITS x LAGTIME of PRODUCT_FAMILY'
+             f'{" with <=200 combinations" if quick else " (up to 719 combinations)"}; iivsearch builders for pheno + 1 peripheral with '
              f'3 and 4 etas in every block structure (20 start models), plus keep / fixed / index_offset')
     return {
         'cases': cases,
@@ -1671,10 +1702,7 @@ def bounded_enumeration(tier):
 def bounded_enumeration_replay(rp):
     case = rp['case']
     _mfl()
-    for fid, clause, detail in _enum_check(case):
-        if fid == case['fid'] and clause == case['clause']:
-            return (False, detail)
-    return (True, 'ok')
+    return _replay_verdict(_enum_check(case), case)
 
 
 # ======================================================================================
@@ -2284,9 +2312,6 @@ def _wf_cases(tier):
     for n in range(1, N + 1):
         for edges in _all_dags(n, True):
             perms = list(itertools.permutations(range(n)))
-            if n == 5:
-                # every rotation and the reversal of the entry order
-                perms = [tuple((i + r) % n for i in range(n)) for r in range(n)] + [tuple(range(n))[::-1]]
             for perm in perms:
                 ident = list(perm) == list(range(n))
                 for names in ('distinct', 'same'):
@@ -2359,8 +2384,8 @@ def bounded_workflows(tier):
     cases, nontrivial, fails = _merge_fails(_run_jobs(_wf_worker, jobs), 'bounded_workflows_replay')
     quick = tier == 'quick'
     N = 4 if quick else 5
-    bound = (f'every DAG with <={N} tasks and one sink (edges i<j), tasks entering in every order'
-             f'{"" if quick else " (5 tasks: rotations and reversal)"}, distinct tasks and tasks with the '
+    bound = (f'every DAG with <={N} tasks and one sink (edges i<j), tasks entering in every order, '
+             f'distinct tasks and tasks with the '
              f'same name and function, predecessor lists in both orders, three ways of building; '
              f'replace_task of every task; + of every split at every task; insert_workflow of every pair '
              f'of DAGs with a+b<={N} tasks, every entry order of the inserted one and every predecessor '
@@ -2380,7 +2405,4 @@ def bounded_workflows(tier):
 
 def bounded_workflows_replay(rp):
     case = rp['case']
-    for fid, clause, detail in _check_wf_case({k: v for k, v in case.items()}):
-        if fid == case['fid'] and clause == case['clause']:
-            return (False, detail)
-    return (True, 'ok')
+    return _replay_verdict(_check_wf_case({k: v for k, v in case.items()}), case)
